@@ -67,6 +67,10 @@ CLAIMED = {
           "For a generated 't and a related 's (1-3 mutations of 't, or independent) up to 8 first-order values of 't are written as literals and tested with `=('s)y`, `='s`, a typed tuple pattern, or a typed receive after mailing the values in order; an accepted value must be a member of 's, a member must be accepted, the receive must take the earliest member; each program runs as compiled, tree-shaken, after a JSON round trip and merged behind programs that register the same tuple names in other shapes. Exploration only.",
           "Values are literals, so 'compile-time type contained in the pattern type' coincides with membership; construction through widening routes is exercised by C13. Programs the compiler rejects are discarded (counted).",
           "DESIGN.md §4 C08"),
+  "C11": ("proptest-generated REPL histories (steps x line splits x rejected lines x schedules) driven through the real Repl/Environment/Workers in the deterministic simulator; oracle: the same steps compiled and run as one program (per-line values, variable set, variable values) + heap invariants after every worker step",
+          "Histories of 3-13 steps (bindings from earlier bindings, shadowing, four destructuring forms, closures capturing earlier bindings, a type alias and a function over it, imports, expression steps incl. the previous result through `~`) are split into lines at generated places with 0-2 rejected lines of eight kinds in between; every accepted line's value, and after every line the variable names and each variable's value, must equal the single program's; the C06 heap invariants run after every worker step (local compaction, orphan release). Exploration only.",
+          "The single program is run by the synchronous driver; type aliases are hoisted to its front (a program allows them only there) and start a line in the session. Function values are compared by captured values. Steps never evaluate to nil.",
+          "DESIGN.md §4 C11"),
   # id: (technique, level text, level note, design_ref)
   "C18": ("proptest-generated inputs + corpus mutation (prefix/token delete/dup/subst/transpose/wide-char) + bracket nests to depth 100; oracle: no panic, located error, deterministic production budget",
           "Generated-input search over front-end inputs: every run parses ~10^5 generated/mutated texts and compiles the accepted ones, checking no panic, error position inside the input on a char boundary with consistent line/column, and a polynomial production budget via hook H5. Exploration only: absence is not established.",
